@@ -295,8 +295,52 @@ def r4(ctx, R):
 RE_FUNCS_MODULE = ()
 
 
+def r5(ctx, R):
+    R.rule("C13.R5", "statements are split on `;` only outside character literals and comments: the text that is split is the literal-blanked copy, cut at the comment start", floor=2, confirmed=3)
+    from .shared import deref, reaching_defs
+
+    p = ctx.m.fn("FortranFile.parse")
+    splits = [c for c in calls_in(p.node) if isinstance(c.func, ast.Attribute) and c.func.attr == "split" and c.args and isinstance(c.args[0], ast.Constant) and c.args[0].value == ";" and isinstance(c.func.value, ast.Name)]
+    if not splits:
+        raise AnalysisError("FortranFile.parse: no split on ';'")
+    for c in splits:
+        X = c.func.value.id
+        vals = [v for v in reaching_defs(ctx, p, c, X) if isinstance(v, ast.AST)]
+        blanked = [v for v in vals if isinstance(v, ast.Call) and any(q.endswith("strip_strings") for q in ctx.r.resolve_call(p, v)[1])]
+        okb = bool(blanked) and all(any(kw.arg == "maintain_len" and isinstance(kw.value, ast.Constant) and kw.value.value is True for kw in v.keywords) or (len(v.args) > 1 and isinstance(v.args[1], ast.Constant) and v.args[1].value is True) for v in blanked)
+        rest = [v for v in vals if v not in blanked]
+        if okb and all(isinstance(v, ast.Subscript) and isinstance(v.slice, ast.Slice) and unparse(v.value) == X for v in rest):
+            R.ok("C13.R5", p.short, f"`{X}` is the literal-blanked line", loc(p, c))
+        else:
+            R.violation("C13.R5", p.short, f"`{X}` is the literal-blanked line", loc(p, c), f"the text split on `;` is not (only) the copy with character literals blanked at the same length: a `;` inside a string splits the statement")
+        # comment cut: C = X.find("!"); if C >= 0: X = X[:C]
+        cvar = None
+        for st in ctx.m.walk_own(p.node):
+            if isinstance(st, ast.Assign) and isinstance(st.targets[0], ast.Name) and isinstance(st.value, ast.Call) and isinstance(st.value.func, ast.Attribute) and st.value.func.attr in ("find", "index") and unparse(st.value.func.value) == X and st.value.args and isinstance(st.value.args[0], ast.Constant) and st.value.args[0].value == "!" and st.lineno < c.lineno:
+                cvar = st.targets[0].id
+        cut = False
+        if cvar:
+            for st in ctx.m.walk_own(p.node):
+                if isinstance(st, ast.If) and unparse(st.test) in (f"{cvar} >= 0", f"{cvar} > -1", f"{cvar} != -1") and st.lineno < c.lineno:
+                    for b in st.body:
+                        if isinstance(b, ast.Assign) and unparse(b.targets[0]) == X and isinstance(b.value, ast.Subscript) and isinstance(b.value.slice, ast.Slice) and b.value.slice.lower is None and b.value.slice.upper is not None and unparse(b.value.slice.upper) == cvar and unparse(b.value.value) == X:
+                            cut = True
+        if cut:
+            R.ok("C13.R5", p.short, f"`{X}` is cut at the comment start before the split", loc(p, c))
+        else:
+            R.violation("C13.R5", p.short, f"`{X}` is cut at the comment start before the split", loc(p, c), "the trailing comment is still part of the text that is split on `;`: adding an ordinary comment such as `! old: x = 0; end` changes the entities found (a spurious statement is parsed, a scope is closed early)")
+        # the pieces replace the statement text that the readers see
+        st = ctx.m.enclosing_stmt(c)
+        par = ctx.m.parent.get(st)
+        if isinstance(par, ast.If) and X in unparse(par.test) and "';'" in unparse(par.test).replace('"', "'"):
+            R.ok("C13.R5", p.short, "split only when a `;` is present outside literals and comments", loc(p, par))
+        else:
+            R.undecided("C13.R5", p.short, "split guarded by a `;` test on the same text", loc(p, c), "guard not recognised")
+
+
 def run(ctx, R):
     r1(ctx, R)
     r2(ctx, R)
     r3(ctx, R)
     r4(ctx, R)
+    r5(ctx, R)
